@@ -117,6 +117,7 @@ def probes():
     # ---- differences no switch of the reference models
     b = B('pow-associativity', expect_probe=True)
     b.p.bracket_pow = False
+    b.p.minimal = True
     out.append(b.done([b.let('a!', lit(S, 2.0)), b.let('b!', lit(S, 3.0)), b.let('c!', lit(S, 2.0)),
                        P(bin_(7, bin_(7, b.V('a!'), b.V('b!')), b.V('c!')))]))
     b = B('intdiv-float-operand-then-conversion', expect_probe=True)
@@ -126,7 +127,8 @@ def probes():
     b.p.types.append(('rt', [('fa', I), ('fb', I)]))
     r = b.p.new_var('r', I)
     b.p.vrec[r] = 0
-    out.append(b.done([s_dim(False, [[r, [], [1, 0]]]), b.let('y$', lit(STR, 'hello')),
+    out.append(b.done([b.let('x$', lit(STR, 'first')), b.let('y$', lit(STR, 'hello')),
+                       s_dim(False, [[r, [], [1, 0]]]),
                        P(fld(r, 1)), P(b.V('y$'))]))
     # ---- feature probes (expected to agree)
     b = B('byref-aliasing')
